@@ -50,9 +50,10 @@ impl Copy for NRDRelativeHeight {}
 impl NRDRelativeHeight {
     #[verifier::external_body]
     pub fn new(height: u64) -> (r: Result<NRDRelativeHeight, transaction::Error>)
-        ensures r matches Ok(v) ==> v == spec_nrd(height) { unimplemented!() }
+        ensures r matches Ok(v) ==> v == spec_nrd(height), (r is Ok) == spec_nrd_valid(height) { unimplemented!() }
 }
 pub uninterp spec fn spec_nrd(height: u64) -> NRDRelativeHeight;
+pub uninterp spec fn spec_nrd_valid(height: u64) -> bool;   // 1 ..= one week of blocks
 pub enum Weighting { AsTransaction, AsLimitedTransaction(u64), AsBlock, NoLimit }
 // ghost views of a transaction: its kernels and the numbers of inputs / outputs, its total fee
 // (the views below depend on the transaction body only, not on the kernel offset)
@@ -88,6 +89,11 @@ impl Transaction {
     pub fn replace_kernel(self, k: TxKernelFull) -> (r: Transaction)
         ensures r == spec_replace_kernel(self, k), tx_kernels(r) == seq![k], tx_num_inputs(r) == tx_num_inputs(self),
             tx_num_outputs(r) == tx_num_outputs(self), tx_parts(r) == tx_parts(self), tx_fee_total(r) == spec_kernels_fee(seq![k]), r.offset == self.offset
+    { unimplemented!() }
+    // Transaction::empty(): no kernels, no outputs, (legacy) commit-only empty inputs
+    #[verifier::external_body]
+    pub fn empty() -> (r: Transaction)
+        ensures tx_kernels(r) == Seq::<TxKernelFull>::empty(), body_outputs(r.body) == Seq::<Output>::empty(), body_inputs(r.body) is None
     { unimplemented!() }
     #[verifier::external_body]
     pub fn with_kernel(self, k: TxKernelFull) -> (r: Transaction)
@@ -170,4 +176,17 @@ pub uninterp spec fn spec_kernel_msg(f: KernelFeatures) -> SecpMessage;
 impl KernelFeatures {
     #[verifier::external_body]
     pub fn kernel_sig_msg(&self) -> (r: Result<SecpMessage, transaction::Error>) ensures r matches Ok(m) ==> m == spec_kernel_msg(*self) { unimplemented!() }
+}
+
+// placeholders used when a slate's excess / signature cannot be computed yet
+pub uninterp spec fn spec_commit_from_vec(b: Seq<u8>) -> Commitment;
+pub uninterp spec fn spec_sig_from_raw(b: Seq<u8>) -> Signature;
+impl Commitment {
+    #[verifier::external_body]
+    pub fn from_vec(v: Vec<u8>) -> (r: Commitment) ensures r == spec_commit_from_vec(v@) { unimplemented!() }
+}
+impl Signature {
+    // secp256k1zkp Signature::from_raw_data(&[u8; 64]): copies the bytes, always Ok
+    #[verifier::external_body]
+    pub fn from_raw_data(d: &[u8; 64]) -> (r: Result<Signature, secp::Error>) ensures r matches Ok(s) && s == spec_sig_from_raw(d@) { unimplemented!() }
 }
